@@ -126,6 +126,8 @@ const (
 	defaultMaxDepth  = 64
 	// noCut is the value of explainer.cutAt when no cycle was cut.
 	noCut = int(^uint(0) >> 1)
+	// noLimit asks solveBody for every solution of a rule body.
+	noLimit = int(^uint(0) >> 1)
 )
 
 // ErrNoProof indicates that no proof was found for the goal. The goal may
@@ -229,14 +231,29 @@ func (e *explainer) explain(goal ast.Atom, depth int) []*ProofNode {
 		}
 		rulePremises := rule.Premises
 		uf := unionfind.New()
-		headUF, err := unionfind.UnifyTermsExtend(rule.Head.Args, baseTermsFrom(goal), uf)
+		// A head argument that is a function application (r(fn:plus(X, 1)),
+		// r([X])) cannot be unified with the goal. As the engine does, such a
+		// head is evaluated under each solution of the body and then compared
+		// with the goal; only the other arguments restrict the body up front.
+		headArgs, goalArgs, evalHead := unifiableHeadArgs(rule.Head, goal)
+		headUF, err := unionfind.UnifyTermsExtend(headArgs, goalArgs, uf)
 		if err != nil {
 			continue
 		}
 		remaining := e.opts.MaxProofs - len(proofs)
+		if evalHead {
+			// Any body solution may or may not yield the goal: look at all of them.
+			remaining = noLimit
+		}
 		for _, sol := range e.solveBody(rulePremises, headUF, depth, remaining) {
 			if len(proofs) >= e.opts.MaxProofs {
 				break
+			}
+			if evalHead {
+				head, err := functional.EvalAtom(rule.Head, sol.subst)
+				if err != nil || !head.Equals(goal) {
+					continue
+				}
 			}
 			proof, ok := e.buildProof(&e.program.Rules[ruleIdx], ruleIdx, rule, goal, sol, depth)
 			if !ok {
@@ -421,10 +438,19 @@ func isGround(a ast.Atom) bool {
 	return true
 }
 
-func baseTermsFrom(a ast.Atom) []ast.BaseTerm {
-	out := make([]ast.BaseTerm, len(a.Args))
-	copy(out, a.Args)
-	return out
+// unifiableHeadArgs returns the arguments of a rule head that are variables or
+// constants together with the arguments of the goal at the same positions.
+// evalHead reports that some argument of the head is a function application.
+func unifiableHeadArgs(head, goal ast.Atom) (headArgs, goalArgs []ast.BaseTerm, evalHead bool) {
+	for i, arg := range head.Args {
+		if _, ok := arg.(ast.ApplyFn); ok {
+			evalHead = true
+			continue
+		}
+		headArgs = append(headArgs, arg)
+		goalArgs = append(goalArgs, goal.Args[i])
+	}
+	return headArgs, goalArgs, evalHead
 }
 
 // extractBindings returns the rule's variables bound to concrete constants
